@@ -5,6 +5,7 @@ import (
 	"encoding/json"
 	"errors"
 	"fmt"
+	"reflect"
 	"sort"
 	"strings"
 	"testing"
@@ -44,15 +45,23 @@ func httpKey(a core.Ammo) any {
 }
 
 func nameField(a core.Ammo) any {
-	b, _ := json.Marshal(a)
-	var m map[string]any
-	_ = json.Unmarshal(b, &m)
-	for _, k := range []string{"Name", "tag", "i"} {
-		if v, ok := m[k]; ok {
-			return strings.TrimPrefix(fmt.Sprint(v), "e")
+	v := reflect.ValueOf(a)
+	for v.Kind() == reflect.Ptr && !v.IsNil() {
+		v = v.Elem()
+	}
+	switch v.Kind() {
+	case reflect.Struct:
+		for _, k := range []string{"Name", "Tag"} {
+			if f := v.FieldByName(k); f.IsValid() && f.Kind() == reflect.String {
+				return strings.TrimPrefix(f.String(), "e")
+			}
+		}
+	case reflect.Map:
+		if m, ok := v.Interface().(map[string]any); ok {
+			return strings.TrimPrefix(fmt.Sprint(m["i"]), "e")
 		}
 	}
-	return string(b)
+	return fmt.Sprintf("%T", a)
 }
 
 func kinds() []*kind {
@@ -325,6 +334,7 @@ func runC08(t *testing.T, spec *hutil.Spec, out *hutil.Out) {
 		if out.OverBudget() {
 			return
 		}
+		out.Progress(c.Name())
 		r := &c08run{cell: c, k: kindByName(c.Kind)}
 		rn.e.OnExec = func(res *vs.Result) {
 			if r.drv != nil {
@@ -584,6 +594,7 @@ func runC14(t *testing.T, spec *hutil.Spec, out *hutil.Out) {
 							return
 						}
 						out.Cells++
+						out.Progress(c.Name())
 						key, err := runC14Cell(rn, c)
 						if key == "HARNESS" {
 							out.HarnessErr = c.Name() + ": " + err.Error()
